@@ -334,6 +334,14 @@ def make_case(rng, big=False):
         pts = np.ascontiguousarray(np.column_stack((x, rng.integers(0, 10, n).astype(float))))
         return {'points': pts, 'class': 'epoch-ns-int64', 'layout': 'i64',
                 'ts': _thresholds(rng, x, 'int'), 'ladder': _ladder(rng, x)}
+    if rng.random() < 0.03:
+        # many clusters: hundreds of points and thresholds at or below the smallest gap ratio, so labels run into the hundreds
+        n = int(rng.integers(140, 700))
+        x = np.concatenate(([0], np.cumsum(rng.integers(1, 9, n - 1)))).astype(float)
+        L = float(x[-1] - x[0])
+        ts = [1.0 / L, 0.5 / L, 2.0 / L, float(rng.uniform(1.0, 4.0)) / L, float(rng.uniform(3.0, 9.0)) / L, 2.0 ** -10, 1e-3]
+        pts = np.ascontiguousarray(np.column_stack((x, rng.integers(0, 10, n).astype(float))))
+        return {'points': pts, 'class': 'many-clusters', 'layout': gen.pick_layout(rng, pts), 'ts': ts, 'ladder': _ladder(rng, x)}
     if cls != 'float' and bool(np.all(x == np.round(x))) and rng.random() < 0.5:
         y = rng.integers(0, 10, n).astype(float)
     else:
